@@ -171,6 +171,20 @@ def _like(name):
     return f
 
 
+def _array(obj, *args, **kw):
+    """numpy.array that keeps symbolic entries: a float array is requested but an entry is symbolic -> object array (None -> NaN)"""
+    dt = kw.get("dtype", args[0] if args else None)
+    if dt in (float, _real.float64):
+        probe = _real.asarray(obj, dtype=object)
+        if any(isinstance(x, _SYM) for x in probe.flat):
+            out = _real.empty(probe.shape, dtype=object)
+            for idx in _real.ndindex(*probe.shape):
+                v = probe[idx]
+                out[idx] = float("nan") if v is None else v
+            return out
+    return _real.array(obj, *args, **kw)
+
+
 class Proxy(types.ModuleType):
     """numpy stand-in; attribute lookups not overridden here fall through to numpy"""
 
@@ -187,6 +201,7 @@ class Proxy(types.ModuleType):
         d["absolute"] = _abs
         d["maximum"] = _minmax("maximum")
         d["minimum"] = _minmax("minimum")
+        d["array"] = _array
         if object_alloc:
             for n in ("full", "zeros", "ones", "empty"):
                 d[n] = _objalloc(n)
